@@ -6,6 +6,9 @@ import Hgxv.Proofs.C11Dir
 import Hgxv.Proofs.C11DirIso
 import Hgxv.Proofs.C11Relabel
 import Hgxv.Proofs.C11Cut
+import Hgxv.Proofs.C11DirCensus
+import Hgxv.Proofs.C11Stats
+import Hgxv.Proofs.C11Total
 /-! # C11 - motif census equals exhaustive enumeration and is relabelling-invariant
 
 Property theorems about the models `Hgxv/Model/C11Tables.lean` (pattern tables of
@@ -240,3 +243,192 @@ example : dirCensus 3 [([0],[1,2]), ([0,1],[2]), ([3],[0,1,2,4])] = [([([1],[2,3
 example : dcanon 3 [([2],[1,3]), ([1,2],[3])] = [([1],[2,3]), ([1,2],[3])] := by decide
 example : WFPat 3 [([2],[1,3]), ([1,2],[3])] := by
   intro e he; simp at he; rcases he with rfl | rfl <;> simp
+
+/-! ## extension round: the directed census as an enumeration
+
+`dCounted n F`: the node sets classified by the two directed passes (`_directed_motifs_ho_full`, then for order 4
+`_directed_motifs_ho_not_full` with the `visited` dict of the first).  Hypotheses of the census theorems: `DWF E`
+and both sides of every hyperedge non-empty.  The second one is needed: `DirectedHypergraph.add_edge` accepts an
+empty side, such a hyperedge on `n` nodes is visited by the full pass but is no member of
+`_all_directed_hyperedges`, its pattern can then coincide with a not-full pattern and the dict merge
+`mappa[key] = count` of `compute_directed_motifs` overwrites the full-pass count (witness below). -/
+
+/-- which node sets the directed census classifies, each exactly once: the `n`-sets spanned by one hyperedge
+(`dnodes e = S`), and for order 4 the 4-sets that are the union of a hyperedge `e` on 3 distinct nodes and a
+hyperedge `f` with disjoint sides that shares a node with `e` (and are not spanned by a single hyperedge - the
+`visited` test; a set qualifying both ways is listed by the full pass only) -/
+theorem C11_dir_counted_sets (n : Nat) (F : DHG) :
+    (dCounted n F).Nodup ∧
+    ∀ S, S ∈ dCounted n F ↔ S.length = n ∧
+      ((∃ e ∈ F, dnodes e = S) ∨
+       (n = 4 ∧ ∃ e ∈ F, (dnodes e).length + 1 = n ∧ dsize e + 1 = n ∧
+          ∃ x, (x ∈ e.1 ∨ x ∈ e.2) ∧ ∃ f ∈ F, (x ∈ f.1 ∨ x ∈ f.2) ∧ (dnodes f).length = dsize f ∧
+            S = sset (e.1 ++ e.2 ++ f.1 ++ f.2))) :=
+  ⟨dCounted_nodup n F, fun _ => mem_dCounted⟩
+
+/-- `compute_directed_motifs(h, n, 0)['observed']` is the enumeration: a pair `(k, c)` is reported iff `c > 0` and
+`c` is the number of classified node sets `S` whose induced labelled pattern `dpattern F S` has canonical form `k`
+(`F` = the hyperedges with at most `n` nodes).  In particular the dict merge of the two passes loses nothing. -/
+theorem C11_dir_census (n : Nat) (hn : n = 3 ∨ n = 4) (E : DHG) (hE : DWF E)
+    (hne : ∀ e ∈ E, e.1 ≠ [] ∧ e.2 ≠ []) (k : List DEdge) (c : Nat) :
+    (k, c) ∈ dirCensus n E ↔
+      0 < c ∧ c = ((dCounted n (dUpTo n E)).filter fun S => dcanon n (dpattern (dUpTo n E) S) == k).length :=
+  dirCensus_count hn hE hne k c
+
+/-- every classified node set is counted exactly once: the reported counts add up to the number of classified
+node sets -/
+theorem C11_dir_census_total (n : Nat) (hn : n = 3 ∨ n = 4) (E : DHG) (hE : DWF E)
+    (hne : ∀ e ∈ E, e.1 ≠ [] ∧ e.2 ≠ []) :
+    ((dirCensus n E).map (·.2)).sum = (dCounted n (dUpTo n E)).length := by
+  rw [dirCensus_closed hn hE hne]
+  unfold dCounted
+  rw [List.map_append, List.sum_append, dspec_total, List.length_append, List.length_map]
+  split
+  · rw [dspec_total, List.length_map]
+  · rfl
+
+/-- non-vacuity (order 4, both passes contribute): `{0,1,2,3}` is spanned by one hyperedge, `{0,1,2,4}` and
+`{5,6,7,8}` are a 3-node hyperedge plus an attached pair -/
+example : DWF [([0],[1,2,3]), ([0],[1,2]), ([2],[4]), ([5],[6,7]), ([7],[8])] ∧
+    ∀ e ∈ [([0],[1,2,3]), ([0],[1,2]), ([2],[4]), ([5],[6,7]), ([7],[8])], e.1 ≠ [] ∧ e.2 ≠ [] :=
+  ⟨⟨by decide, by decide⟩, by decide⟩
+example : dCounted 4 [([0],[1,2,3]), ([0],[1,2]), ([2],[4]), ([5],[6,7]), ([7],[8])]
+    = [[0,1,2,3], [0,1,2,4], [5,6,7,8]] := by decide
+example : dirCensus 4 [([0],[1,2,3]), ([0],[1,2]), ([2],[4]), ([5],[6,7]), ([7],[8])]
+    = [([([1],[2,3]), ([1],[2,3,4])], 1), ([([1],[2]), ([3],[1,4])], 2)] := by decide +kernel
+
+/-- the hypothesis "non-empty sides" is needed: with the empty-source hyperedge `([], [1,2,3,4])` the full pass
+files `{1,2,3,4}` under the same key as the not-full pass files `{11,12,13,14}`, and the merge keeps only the
+latter count - two classified node sets, reported count 1 (the implementation does the same) -/
+example : dCounted 4 [([], [1,2,3,4]), ([1],[2,3]), ([3],[4]), ([11],[12,13]), ([13],[14])]
+    = [[1,2,3,4], [11,12,13,14]] := by decide
+example : dirCensus 4 [([], [1,2,3,4]), ([1],[2,3]), ([3],[4]), ([11],[12,13]), ([13],[14])]
+    = [([([1],[2]), ([3],[1,4])], 1)] := by decide +kernel
+
+/-- the class a node set is filed under is the class of its induced sub-hypergraph: for every classified node set
+`S` (strictly increasing) the labelled pattern handed to `dcanon` consists exactly of the hyperedges of `F` that lie
+inside `S` (non-empty disjoint sides), nodes replaced by their ranks `1..n` in `S` -/
+theorem C11_dir_pattern_induced (n : Nat) (F : DHG) (hF : DWF F) (S : List Nat) (hS : S ∈ dCounted n F)
+    (e' : DEdge) :
+    SSorted S ∧
+    (e' ∈ dpattern F S ↔ ∃ e ∈ F, e.1 ≠ [] ∧ e.2 ≠ [] ∧ (∀ x ∈ e.1, x ∈ S) ∧ (∀ x ∈ e.2, x ∈ S ∧ x ∉ e.1) ∧
+      e' = rankE S e) :=
+  ⟨dCounted_sorted hS, mem_dpattern hF (dCounted_sorted hS)⟩
+
+example : dpattern [([0],[1,2,3]), ([0],[1,2]), ([2],[4]), ([5],[6,7]), ([7],[8])] [0,1,2,4]
+    = [([1],[2,3]), ([3],[4])] := by decide +kernel
+
+/-! ## extension round: every connected subset is counted exactly once -/
+
+open Classical in
+/-- the per-class counts of `compute_motifs(h, n, 0)['observed']` add up to the number of connected `n`-subsets of
+the node set: with `C11_census` (class `c` counts the connected subsets whose pattern is a relabelling of `c`) this
+says that every connected subset is counted exactly once - under one class, by one of the three passes -/
+theorem C11_census_total (n : Nat) (hn : n = 3 ∨ n = 4) (E : HG) (hE : WF E) :
+    ((census n E).map (·.2)).sum
+      = ((subsetsOfSize n (nodesOf E)).filter fun S => decide (Conn E S)).length :=
+  census_total hn hE
+
+/-- non-vacuity: the census of the example above reports 3 connected 3-subsets (`{0,1,2}`, `{0,1,3}`, `{1,2,3}`;
+`{0,2,3}` is not connected) -/
+example : ((census 3 [[0,1],[1,2],[0,1,2],[2,3],[1,3]]).map (·.2)).sum = 3 := by
+  have h : stdSets 3 [[0,1],[1,2],[0,1,2],[2,3],[1,3]] [[0,1,2]] = [[0, 1, 3], [1, 2, 3]] := by
+    simp [stdSets, esuSets, roots, nbrs, dyadic, dedup, extend, newExcl, isort, insertSorted]
+  have hu : upTo 3 [[0,1],[1,2],[0,1,2],[2,3],[1,3]] = [[0,1],[1,2],[0,1,2],[2,3],[1,3]] := by decide
+  have hf : fullSets 3 [[0,1],[1,2],[0,1,2],[2,3],[1,3]] = [[0,1,2]] := by decide
+  unfold census censusWith stdPats
+  simp only [hu, hf, h]
+  rw [classes3_eq, tbls3_eq]
+  decide
+
+/-! ## extension round: the null-model arithmetic (`runs_config_model > 0`)
+
+`diffSum obs nulls` = `utils.diff_sum` on the counts of the observed census and of the configuration-model rounds
+(`Model/C11Stats.lean`), `normVector` = `utils.norm_vector` with `math.sqrt` as a parameter, `dDiffSum` =
+`utils.directed_diff_sum`.  The guard of `diffSum` (at least one round, every round lists the classes of the
+observed census) is what `compute_motifs` guarantees. -/
+
+/-- `diff_sum`: one entry per class; entry `i` is `(o - u) / (o + u + 4)` with `o` the observed count and `u` the
+mean of the rounds' counts of class `i` (the denominator is positive - no division by zero); every entry lies
+strictly between -1 and 1, and it is positive / negative exactly when the observed count is above / below the
+mean (`s` = total over the rounds, compared without division) -/
+theorem C11_diff_sum (obs : List Nat) (nulls : List (List Nat)) (d : List Rat) (h : diffSum obs nulls = some d) :
+    d.length = obs.length ∧ (∀ x ∈ d, -1 < x ∧ x < 1) ∧
+    ∀ i (hi : i < obs.length),
+      d[i]? = some (relAb obs[i] (((nulls.map fun m => m[i]?.getD 0).sum : Nat) / (nulls.length : Rat))) ∧
+      (0 : Rat) < (obs[i] : Rat) + (((nulls.map fun m => m[i]?.getD 0).sum : Nat) / (nulls.length : Rat)) + 4 ∧
+      (∀ x, d[i]? = some x → ((0 < x ↔ (nulls.map fun m => m[i]?.getD 0).sum < obs[i] * nulls.length) ∧
+        (x < 0 ↔ obs[i] * nulls.length < (nulls.map fun m => m[i]?.getD 0).sum))) := by
+  unfold diffSum at h
+  split at h
+  · rename_i hok
+    obtain ⟨hne, hlen⟩ := statsOk_iff.mp hok
+    have hd : d = List.zipWith relAb obs (avgNull obs.length nulls) := by simpa using h.symm
+    have hR : (0 : Rat) < (nulls.length : Rat) := by
+      have : 0 < nulls.length := List.length_pos_iff.mpr hne
+      exact_mod_cast this
+    refine ⟨?_, ?_, ?_⟩
+    · rw [hd, List.length_zipWith]
+      unfold avgNull
+      rw [List.length_map, colSums_length hlen]; simp
+    · intro x hx
+      rw [hd] at hx
+      obtain ⟨o, _, u, hu, rfl⟩ := mem_zipWith_relAb hx
+      exact relAb_bounds o (avgNull_nonneg u hu)
+    · intro i hi
+      have hu : (0 : Rat) ≤ (((nulls.map fun m => m[i]?.getD 0).sum : Nat) : Rat) / (nulls.length : Rat) :=
+        div_nonneg (Nat.cast_nonneg _) (le_of_lt hR)
+      have hentry : d[i]? = some (relAb obs[i]
+          (((nulls.map fun m => m[i]?.getD 0).sum : Nat) / (nulls.length : Rat))) := by
+        rw [hd, List.getElem?_zipWith]
+        unfold avgNull
+        rw [List.getElem?_map, colSums_getElem? hlen hi, List.getElem?_eq_getElem hi]
+        rfl
+      refine ⟨hentry, relAb_den_pos _ hu, ?_⟩
+      intro x hx
+      rw [hentry] at hx
+      have hx' := Option.some.inj hx
+      subst hx'
+      rw [relAb_pos_iff _ hu, relAb_neg_iff _ hu, div_lt_iff₀ hR, lt_div_iff₀ hR]
+      constructor <;> constructor <;> intro h' <;> exact_mod_cast h'
+  · exact absurd h (by simp)
+
+/-- `norm_vector`: a vector whose sum of squares is 0 is the zero vector and is returned unchanged; otherwise, with
+`s` the square root of the sum of squares, the result has as many entries and its squares add up to 1 -/
+theorem C11_norm_vector (s : Rat) (a : List Rat) :
+    (sumSq a = 0 → normVector s a = a ∧ ∀ x ∈ a, x = 0) ∧
+    (sumSq a ≠ 0 → s * s = sumSq a →
+      (normVector s a).length = a.length ∧ sumSq (normVector s a) = 1) := by
+  unfold normVector
+  constructor
+  · intro h; exact ⟨by rw [if_pos h], sumSq_eq_zero h⟩
+  · intro h hs
+    rw [if_neg h, List.length_map, sumSq_div, hs]
+    exact ⟨rfl, div_self h⟩
+
+/-- `directed_diff_sum`: its two branches are one formula - a canonical pattern that no round reported is treated
+as mean 0 - namely `(o - u) / (o + u + 4)` with `u` = (total count of that key over the rounds) / rounds; every
+entry lies strictly between -1 and 1 -/
+theorem C11_dir_diff_sum {K : Type} [DecidableEq K] (obs : List (K × Nat)) (nulls : List (List (K × Nat))) :
+    dDiffSum obs nulls = (obs.map fun p => relAb p.2 ((dKeySum nulls p.1 : Rat) / (nulls.length : Rat))) ∧
+    ∀ x ∈ dDiffSum obs nulls, -1 < x ∧ x < 1 := by
+  have key : dDiffSum obs nulls
+      = (obs.map fun p => relAb p.2 ((dKeySum nulls p.1 : Rat) / (nulls.length : Rat))) := by
+    unfold dDiffSum
+    apply List.map_congr_left
+    intro p _
+    split
+    · rfl
+    · rename_i hk
+      rw [dKeySum_eq_zero (by simpa using hk)]
+      simp [relAb_zero_right]
+  refine ⟨key, ?_⟩
+  intro x hx
+  rw [key] at hx
+  obtain ⟨p, _, rfl⟩ := List.mem_map.mp hx
+  exact relAb_bounds _ (div_nonneg (Nat.cast_nonneg _) (Nat.cast_nonneg _))
+
+/-- non-vacuity: two rounds, observed above / equal to / below the mean -/
+example : diffSum [4, 1, 0] [[2, 1, 3], [2, 1, 5]] = some [1/5, 0, -1/2] := by decide +kernel
+example : normVector 5 [3, -4, 0] = [3/5, -4/5, 0] ∧ (5 : Rat) * 5 = sumSq [3, -4, 0] := by decide +kernel
+example : dDiffSum [(7, 4), (9, 2)] [[(7, 2)], [(7, 2), (8, 1)]] = [1/5, 1/3] := by decide +kernel
